@@ -690,7 +690,9 @@ pub fn check_trace(s: &Script, tr: &Trace, rep: &mut Report) -> Outcome {
             if sum != o.snap.used as i128 {
                 fail!("C01", "used/not-sum-of-charges", "used {} != sum of per-key charges {sum}", o.snap.used);
             }
-            let model_sum: i128 = slots.values().map(|e| e.charge as i128).sum();
+            // the charges the policy would hold without clamping: the model's, or what the policy itself
+            // reports where the model does not know the charge (a vetoed write re-charges the resident key)
+            let model_sum: i128 = slots.iter().map(|(index, e)| (e.charge as i128).max(policy.get(index).copied().unwrap_or(0) as i128)).sum();
             if model_sum > i64::MAX as i128 {
                 charges_in_domain = false;
                 out.out_of_domain = true;
